@@ -16,11 +16,10 @@ let obs_of_iout (o : iout) : obs list =
 (* what the glue remembers along one history besides the monitor: the classes of histories the
    partial theorems exclude (recorded findings) *)
 type hstate = { mon : mon; mon6 : mon6; cid_changed : bool; pinger_outlived : bool; eof_cause : bool;
-                mon_m : mon; mon6_m : mon6 (* the same monitors over the MODEL's own outputs, see [step] *);
-                stale_reg : int list (* C06 clause 5: message IDs of broker exchanges in their REGISTER step that met an
-                                        acknowledgement of an earlier exchange with the same ID *) }
+                mon6r : mon6r (* C06, the REGISTER step of broker exchanges (Checkers/ChkGw6.v) *);
+                mon_m : mon; mon6_m : mon6; mon6r_m : mon6r (* the same monitors over the MODEL's own outputs, see [step] *) }
 let hstate_init = { mon = mon_init; mon6 = mon6_init; cid_changed = false; pinger_outlived = false; eof_cause = false;
-                    mon_m = mon_init; mon6_m = mon6_init; stale_reg = [] }
+                    mon6r = mon6r_init; mon_m = mon_init; mon6_m = mon6_init; mon6r_m = mon6r_init }
 
 (* (property, clause) failures of one step; s' is the model's state after the step *)
 let step1 (cfg : gw_cfg) (s : gw_state) (s' : gw_state) (ev : gw_event) (iouts : iout list) (os : obs list) (h : hstate)
@@ -38,6 +37,7 @@ let step1 (cfg : gw_cfg) (s : gw_state) (s' : gw_state) (ev : gw_event) (iouts :
   let c24m = if c24 = [] then tag "C24" (chk_C24 os) else [] in
   let (m', mf) = mon_step cfg s s' ev os h.mon in
   let (m6', f6) = mon6_step cfg s ev os h.mon6 in
+  let (m6r', f6r) = mon6r_step cfg s ev os h.mon6 h.mon6r in
   (* C04: the peer re-CONNECTed under another client ID after topic IDs were in use (cid_stable fails) *)
   let cid_changed = h.cid_changed ||
                     (s'.gw_client_id <> s.gw_client_id && (s.gw_handed_out <> [] || nmap_to_list s.gw_registered <> [])) in
@@ -89,8 +89,8 @@ let step1 (cfg : gw_cfg) (s : gw_state) (s' : gw_state) (ev : gw_event) (iouts :
    @ List.map (fun c -> let c = int_of_n c in
                 ("C06", if c < 10 then Printf.sprintf "clause%d class=same-id-both-directions" c
                         else if c > 20 then Printf.sprintf "clause%d class=superseded-client-exchange" (c - 20)
-                        else Printf.sprintf "clause%d" (c - 10))) f6,
-   { h with mon = m'; mon6 = m6'; cid_changed; pinger_outlived; eof_cause })
+                        else Printf.sprintf "clause%d" (c - 10))) (f6 @ f6r),
+   { h with mon = m'; mon6 = m6'; mon6r = m6r'; cid_changed; pinger_outlived; eof_cause })
 
 (* The checkers run twice per step: on the implementation's observations and on the model's own
    outputs (with monitors of their own).  A failure carries "model=fails" when the faithful model
@@ -100,29 +100,7 @@ let step1 (cfg : gw_cfg) (s : gw_state) (s' : gw_state) (ev : gw_event) (iouts :
 let step (cfg : gw_cfg) (s : gw_state) (s' : gw_state) (ev : gw_event) (iouts : iout list) (mouts : gw_out list) (h : hstate)
   : (string * string) list * hstate =
   let (fi, hi) = step1 cfg s s' ev iouts (List.concat_map obs_of_iout iouts) h in
-  let hm0 = { h with mon = h.mon_m; mon6 = h.mon6_m } in
+  let hm0 = { h with mon = h.mon_m; mon6 = h.mon6_m; mon6r = h.mon6r_m } in
   let (fm, hm) = step1 cfg s s' ev [] (obs_of_outs mouts) hm0 in
-  (* C06 clause 5 (outside mon6, whose broker exchanges start when their PUBLISH is written): a broker exchange in
-     its REGISTER step met an acknowledgement of an EARLIER exchange with the same message ID; the model, whose
-     state survives it, writes the PUBLISH in the step of the client's accepted REGACK - the implementation does
-     not: the state of the exchange in progress was deleted.  The expectation is the model's own output, so the
-     clause never fails on the model (model=holds). *)
-  let in_register_step i = List.exists (fun (_, t) -> match t with
-      | TxBrokerPub (mid, _, AwaitRegack, _, _, _) -> int_of_n mid = i | _ -> false) (nmap_to_list s.gw_objs) in
-  let pub_mids (os : obs list) = List.concat_map (fun o -> match o with
-      | ObSn (_, dg) -> (match read_dgram dg with Ok (Publish (_, q, _, _, _, mid, _)) when int_of_n q > 0 -> [int_of_n mid] | _ -> [])
-      | _ -> []) os in
-  let evp = (match ev with EvSn dg -> (match read_dgram dg with Ok p -> Some p | _ -> None) | _ -> None) in
-  let stale_reg = (match ev, evp with
-      | EvMq (MqPublish (_, _, _, _, i, _)), _ -> List.filter (fun j -> j <> int_of_n i) h.stale_reg
-      | _, Some (Puback (_, i, _)) | _, Some (Pubrec i) | _, Some (Pubcomp i) when in_register_step (int_of_n i) ->
-        int_of_n i :: h.stale_reg
-      | _ -> h.stale_reg) in
-  let c06r = (match evp with
-      | Some (Regack (_, i, rc)) when int_of_n rc = 0 && List.mem (int_of_n i) h.stale_reg
-                                      && List.mem (int_of_n i) (pub_mids (obs_of_outs mouts))
-                                      && not (List.mem (int_of_n i) (pub_mids (List.concat_map obs_of_iout iouts))) ->
-        [("C06", "clause5 class=ack-of-earlier-exchange-in-register-step model=holds")]
-      | _ -> []) in
-  (List.map (fun (p, c) -> (p, c ^ (if List.mem (p, c) fm then " model=fails" else " model=holds"))) fi @ c06r,
-   { hi with mon_m = hm.mon; mon6_m = hm.mon6; stale_reg })
+  (List.map (fun (p, c) -> (p, c ^ (if List.mem (p, c) fm then " model=fails" else " model=holds"))) fi,
+   { hi with mon_m = hm.mon; mon6_m = hm.mon6; mon6r_m = hm.mon6r })
